@@ -40,6 +40,7 @@
   orders), and leave the value of the carried `err` existential (`∃ err'`, closed by `loop_step_close`).
 -/
 import Lean
+import LzProofs.GenCallByName
 import LzModel.Generated.CodeDecoder
 import LzProofs.GenBufPropsD
 import LzProofs.GenBufPropsDCopy
@@ -63,59 +64,7 @@ of `f`: header binders and the pattern variables of the last `match` alternative
 the result tuple `r` that belongs to the state variable `x`.  Names that `f` does not have are ignored (a variable that
 is no longer captured), arguments that are not given are `_` (an error unless unification finds them).  Both are pure
 notation: the elaborated term is an ordinary application / projection checked by the kernel. -/
-section GenCall
-open Lean Elab Term Meta
-
-/-- argument names of the generated function `f` (Go variable names), and the position of the fuel argument of a
-    loop function (`none` for a function that is not defined by `match` on the fuel) -/
-def genArgNames (f : Name) : MetaM (Array Name × Option Nat) := do
-  let some u ← getUnfoldEqnFor? f (nonRec := true) | throwError "gcall%: no defining equation for {f}"
-  let info ← getConstInfo u
-  forallTelescope info.type fun xs body => do
-    let some (_, _, rhs) := body.eq? | throwError "gcall%: unexpected defining equation {u}"
-    let hdr ← xs.mapM fun x => return (← x.fvarId!.getUserName).eraseMacroScopes
-    match ← matchMatcherApp? rhs with
-    | some app =>
-      let rec names (e : Expr) (acc : Array Name) : Array Name := match e with
-        | .lam n _ b _ => names b (acc.push n.eraseMacroScopes)
-        | _ => acc
-      let alt := names app.alts.back! #[]
-      if alt.size > hdr.size then throwError "gcall%: unexpected defining equation {u}"
-      return (hdr.extract 0 (hdr.size - alt.size) ++ alt, some (hdr.size - alt.size))
-    | none => return (hdr, none)
-
-declare_syntax_cat garg
-syntax ident " := " term : garg
-
-/-- `gcall% f [x := e, …]`: `f` applied to the given arguments, matched by name -/
-elab "gcall% " f:ident " [" as:garg,* "]" : term => do
-  let fn ← realizeGlobalConstNoOverloadWithInfo f
-  let (names, _) ← genArgNames fn
-  let mut given : Array (Name × Term) := #[]
-  for a in as.getElems do
-    match a with
-    | `(garg| $x:ident := $t:term) => given := given.push (x.getId, t)
-    | _ => throwUnsupportedSyntax
-  let mut args : Array Term := #[]
-  for n in names do
-    match given.find? (·.1 == n) with
-    | some (_, t) => args := args.push t
-    | none => args := args.push (← `(_))
-  elabTerm (← `(@$(mkIdent fn) $args*)) none
-
-/-- `gproj% f x r`: the component of the result `r = (exit, state…)` of the loop function `f` for the state variable `x` -/
-elab "gproj% " f:ident x:ident r:term:max : term => do
-  let fn ← realizeGlobalConstNoOverloadWithInfo f
-  let (names, some i) ← genArgNames fn | throwError "gproj%: {f.getId} is not a loop function"
-  let state := names.extract (i + 1) names.size
-  let some j := state.findIdx? (· == x.getId)
-    | throwError "gproj%: {fn} has no state variable {x.getId}; its state is {state}"
-  let mut t : Term := r
-  for _ in [0:j+1] do t ← `($t.2)
-  if j + 1 < state.size then t ← `($t.1)
-  elabTerm t none
-
-end GenCall
+-- (`gcall%` / `gproj%` live in LzProofs/GenCallByName.lean, shared with the OSAP modules)
 
 /-- `Res.bind` is associative -/
 theorem bind_assoc {α β γ : Type} (m : Res α) (f : α → Res β) (k : β → Res γ) :
